@@ -1513,20 +1513,8 @@ def apply_obj(which, obj, tensors, nograd):
     return go()
 
 
-REGION_NCJ = "triggs-noncontiguous-J"
-
-
-def km_ncj(kf, case):
-    """known-findings matcher (call site + input region) for Triggs with a non-contiguous Jacobian"""
-    return (kf.get("site") == "pypose/optim/corrector.py: Triggs.forward" and kf.get("predicate") == "J non-contiguous"
-            and case.get("region") == REGION_NCJ)
-
-
 def hfail(ctx, case, what):
-    if case.get("region") == REGION_NCJ:
-        ctx.fail(case, "triggs-noncontiguous-J: " + what, known_matcher=km_ncj)
-    else:
-        ctx.fail(case, what)
+    ctx.fail(case, what)
 
 
 def check_history(ctx: Ctx, case, lines=None, metas=None):
@@ -1559,8 +1547,6 @@ def check_history(ctx: Ctx, case, lines=None, metas=None):
                 pairs = [lay_out(t, layout, rng) for t in ref_in]
                 views, bases = tuple(p[0] for p in pairs), [p[1] for p in pairs]
             before = [b.clone() for b in bases]
-            if which == "triggs" and not views[1].is_contiguous():
-                cc["region"] = REGION_NCJ          # input-region label (from the inputs, not from the outcome)
             out = apply_obj(which, obj, views, call["nograd"])
             fresh_k = build_kernel(spec)
             fresh = fresh_k if which == "kernel" else build_corrector(which, fresh_k)
